@@ -1,4 +1,5 @@
 import Gonuts.Lemmas.MintSeq
+import Gonuts.Lemmas.MeltPay
 /-!
   C05 — melt inputs follow the Lightning outcome.  For every melt that passed validation, every pay-call answer
   `a0`, every extra status answer `a1` and EVERY LIST of later poll answers (no length bound; induction on the list):
@@ -175,6 +176,24 @@ theorem resolve_all_ambiguous (as : List LnAns) (hamb : ∀ x ∈ as, pollOutcom
 /-- Once PAID or UNPAID, further polls never change the verdict. -/
 theorem resolve_final (st : LQState) (h : st ≠ .pending) (as : List LnAns) : resolve st as = st := by
   cases st <;> simp_all [resolve]
+
+/-- **When the mint pays.**  For every melt request, every world (any tables, any Lightning script, with or without an armed
+    storage fault) and every number `n` of calls already made: if `MeltTokens` is about to call `SendPayment` or
+    `PayPartialAmount`, then the tables are EXACTLY the ones the request started with plus its inputs in the pending table
+    under the quote and the quote's state PENDING — nothing else has been written, the inputs are locked before any money
+    can move.  (`Lemmas/MeltPay.lean`: the write automaton init → locked → PENDING → tail with the payment calls as events
+    allowed in PENDING only — so the walk over the program's binds also shows that NO path asks for a payment twice.) -/
+theorem payment_only_with_inputs_locked (cx : Cx) (qid : Int) (ps : List Proof) (n : Nat) (w w' : World) (β : Type) (e : Eff β)
+    (hn : (meltTokens cx qid ps).run.nextN n w = some (w', ⟨β, e⟩)) (hp : isPayEff e = true) :
+    ∃ id t, insertRows w.db.pending (pendRows (ps.map Proof.row) id) = some t ∧
+      w'.db = { w.db with pending := t, meltQ := updMeltQ w.db.meltQ id 0 .pending } :=
+  melt_pays_only_when_locked cx qid ps n w w' β e hn hp
+
+/-- the syntactic half, stated: every path of `MeltTokens` performs, in this order, only reads, `AddPendingProofs(inputs)`,
+    `UpdateMeltQuote(PENDING)`, then at most ONE payment call, and no payment call after any other write -/
+theorem melt_write_shape (cx : Cx) (qid : Int) (ps : List Proof) :
+    Conf (payAuto (ps.map Proof.row)) (fun _ _ => True) .init (meltTokens cx qid ps).run :=
+  conf_meltTokens cx qid ps
 
 example : meltOutcome .failedErr .notfound = .unpaid := by decide
 example : meltOutcome .err .err = .pending := by decide
